@@ -16,6 +16,7 @@ import (
 
 type c18Input struct {
 	Kind string `json:"kind"` // iter-asc | iter-desc | reentrant-read | reentrant-write
+	From int    `json:"from"` // iterators: -1 = from the very beginning; k >= 0 = the target is the k-th key itself
 	N    int    `json:"n"`
 	Stop int    `json:"stop"` // number of Next() calls before Close(); N+1 = run to exhaustion
 	Val  bool   `json:"withValue"`
@@ -61,16 +62,25 @@ func c18Iter(in c18Input) string {
 	var it ItemIterator
 	var want []string
 	if in.Kind == "iter-asc" {
-		it = c.IterateAscend([]byte(""), in.Val)
-		for i := 0; i < in.N; i++ {
+		lo, target := 0, []byte("")
+		if in.From >= 0 {
+			lo, target = in.From, []byte(fmt.Sprintf("%04d", in.From))
+		}
+		it = c.IterateAscend(target, in.Val)
+		for i := lo; i < in.N; i++ {
 			want = append(want, fmt.Sprintf("%04d", i))
 		}
 	} else {
-		it = c.IterateDescend([]byte("9999"), in.Val)
-		for i := in.N - 1; i >= 0; i-- {
+		hi, target := in.N-1, []byte("9999")
+		if in.From >= 0 {
+			hi, target = in.From-1, []byte(fmt.Sprintf("%04d", in.From)) // descending visits are exclusive
+		}
+		it = c.IterateDescend(target, in.Val)
+		for i := hi; i >= 0; i-- {
 			want = append(want, fmt.Sprintf("%04d", i))
 		}
 	}
+	avail := len(want)
 	got := 0
 	for got < in.Stop {
 		if !it.Next() {
@@ -85,11 +95,11 @@ func c18Iter(in c18Input) string {
 		}
 		got++
 	}
-	if in.Stop <= in.N && got != in.Stop {
-		return fmt.Sprintf("iterator ended after %d items, %d were available", got, in.N)
+	if in.Stop <= avail && got != in.Stop {
+		return fmt.Sprintf("iterator ended after %d items, %d were available", got, avail)
 	}
-	if in.Stop > in.N && got != in.N {
-		return fmt.Sprintf("iterator delivered %d of %d items", got, in.N)
+	if in.Stop > avail && got != avail {
+		return fmt.Sprintf("iterator delivered %d of %d items", got, avail)
 	}
 	it.Close()
 	it.Close() // idempotent
@@ -158,7 +168,14 @@ func c18Space() []c18Input {
 		for stop := 0; stop <= n+1; stop++ {
 			for _, k := range []string{"iter-asc", "iter-desc"} {
 				for _, v := range []bool{false, true} {
-					out = append(out, c18Input{Kind: k, N: n, Stop: stop, Val: v})
+					out = append(out, c18Input{Kind: k, From: -1, N: n, Stop: stop, Val: v})
+					if !v && n > 0 && stop <= 2 {
+						// start exactly at an existing key, for every key (early stops are where a
+						// producer that is called again after "stop" gets stuck)
+						for from := 0; from < n; from++ {
+							out = append(out, c18Input{Kind: k, From: from, N: n, Stop: stop, Val: v})
+						}
+					}
 				}
 			}
 		}
